@@ -73,6 +73,15 @@ def systematic():
                 vs = [clone_v(v) for v in ORD]
                 vs.insert(pos, d)
                 items.append(("default+default_with", Item("E", vs)))
+    # two variants marked default, the EARLIER one disabled as well: the enabled one is the catch-all (a disabled variant takes no part)
+    for named in (False, True):
+        for gone_first in (True, False):
+            gone = Variant("Gone", "named" if named else "tuple", [Field("String", "x" if named else "")], [DISABLED, DEFAULT] if gone_first else [DEFAULT, DISABLED])
+            other = Variant("Other", "named" if named else "tuple", [Field("String", "rest" if named else "")], [DEFAULT])
+            vs = [clone_v(v) for v in ORD]
+            vs.insert(1, gone)
+            vs.insert(3 if gone_first else 1, other)
+            items.append(("disabled-default+default", Item("E", vs)))
     # both in one enum
     items.append(("both", Item("E", [Variant("T", "tuple", [Field("String")], [TRANSPARENT]),
                                      Variant("D", "tuple", [Field("String")], [DEFAULT]), clone_v(ORD[0])])))
@@ -106,7 +115,7 @@ def build_corpus(tier, rng):
     for (fam, it), info in zip(cands, infos):
         if info is None or not info["nonoverlap"]:
             continue
-        if any(v["default"] and v["disabled"] for v in info["variants"]):
+        if any(v["default"] and v["disabled"] for v in info["variants"]) and fam != "disabled-default+default":
             continue
         has_default = any(v["default"] for v in info["variants"])
         trans = [v for v in it.variants if v.has("transparent")]
